@@ -227,8 +227,14 @@ fn f3_case(b: &[u8; 8], cutpos: usize) {
 
 fn f3_harness(cutpos: usize) {
     let x: [u8; 8] = kani::any();
-    // fixed header, four continuation bytes, then a small valid frame [h2, 1, d]
-    let b: [u8; 8] = [x[0], x[1] | 0x80, x[2] | 0x80, x[3] | 0x80, x[4] | 0x80, x[5], 1, x[7]];
+    // fixed header, four continuation bytes, then a small valid frame [h2, 1, d].
+    // The length bytes are concrete (three patterns): with symbolic low bits the symbolic executor cannot
+    // see that the continuation bit is set and explores a payload allocation of symbolic size.
+    let b: [u8; 8] = [x[0], 0xFF, 0xFF, 0xFF, 0xFF, x[5], 1, x[7]];
+    f3_case(&b, cutpos);
+    let b: [u8; 8] = [x[0], 0x80, 0x80, 0x80, 0x80, x[5], 1, x[7]];
+    f3_case(&b, cutpos);
+    let b: [u8; 8] = [x[0], 0x81, 0xFE, 0x80, 0xC3, x[5], 1, x[7]];
     f3_case(&b, cutpos);
 }
 // the error frame may itself arrive in two pieces: one harness per cut position (5 = in one piece)
@@ -416,7 +422,7 @@ fn c09_f2_s3_four_byte_len() {
 #[kani::unwind(11)]
 fn c09_f2_s4_error_then_frame() {
     let x: [u8; 8] = kani::any();
-    let s: [u8; 8] = [x[0], x[1] | 0x80, x[2] | 0x80, x[3] | 0x80, x[4] | 0x80, x[5], 1, x[7]];
+    let s: [u8; 8] = [x[0], 0x81, 0xFE, 0x80, 0xC3, x[5], 1, x[7]];
     let exp = Exp { f: [(0, 0, 0, true), (5, 7, 1, false), (0, 0, 0, false), (0, 0, 0, false)], n: 2, tail: 0 };
     all_cuttings(&s, &exp);
 }
